@@ -36,6 +36,10 @@ def one(meta):
             return meta, None
         new = alarms(d + "/r") - base_alarms(commit)
         rules = sorted(set(k.split(" :: ")[0] for k in new))
+        if not rules and m.get("note_rules"):
+            # the reporting rule also fails on the (unrepaired) commit the patch applies to: the
+            # recorded rules are those of the equivalent current-tree variant named in note_rules
+            return meta, m.get("rules_reporting_it", [])
         m["rules_reporting_it"] = rules
         m["static_checks_reporting_it"] = sorted(set(r.split("-")[0] for r in rules))
         json.dump(m, open(meta, "w"), indent=1)
